@@ -603,6 +603,40 @@ func (q *seqRun) opSchedule() {
 			q.res.sit("C10", fmt.Sprintf("schedule request with the literal 1e400 answered %d", code))
 		}
 	}
+	if q.api != nil && q.r.Intn(10) == 0 {
+		// a schedule request whose body is not what the API accepts (malformed number literal, a number no float64 holds,
+		// truncated JSON, wrong types) is refused and leaves no trace: every job stays reported, the listing stays readable
+		bodies := []string{
+			`{"pipeline":"` + p + `","variables":{"version":1.2.3}}`,
+			`{"pipeline":"` + p + `","variables":{"huge":1e400}}`,
+			`{"pipeline":"` + p + `","variables":{"n":01}}`,
+			`{"pipeline":"` + p + `","variables":{"n":1}`,
+			`{"pipeline":"` + p + `","variables":[1,2]}`,
+			`{"pipeline":"` + p + `","variables":{"n":--1}}`,
+		}
+		b := bodies[q.r.Intn(len(bodies))]
+		n0 := len(q.sys.Snapshot(-1).Jobs)
+		code, _ := q.api.DoRaw("POST", "/pipelines/schedule", []byte(b))
+		q.res.sit("C15", "malformed schedule request over HTTP")
+		q.res.sit("C05", "malformed schedule request over HTTP")
+		q.res.sit("C10", "malformed schedule request over HTTP")
+		props := []string{"C15", "C05", "C10"}
+		if code >= 200 && code < 300 {
+			q.find(props, "C05:malformed-request-accepted", "POST /pipelines/schedule with the body %s was answered %d", b, code)
+			q.dead = true // (the model does not know the job)
+		}
+		if n1 := len(q.sys.Snapshot(-1).Jobs); n1 != n0 {
+			q.find(props, "C05:rejected-leaves-trace", "POST /pipelines/schedule with the body %s (answered %d) changed the number of jobs from %d to %d", b, code, n0, n1)
+			q.dead = true
+		}
+		if _, _, err := q.api.PipelinesJobs(); err != nil {
+			q.find(props, "C15:job-list-unreadable", "after POST /pipelines/schedule with the body %s (answered %d) GET /pipelines/jobs cannot be decoded any more: %v", b, code, err)
+			q.dead = true
+		}
+		if q.dead {
+			return
+		}
+	}
 	predicted := q.m.Decide(p)
 	cfg := q.m.Cfg[p]
 	sitKey := fmt.Sprintf("%s R%d W%d canceledWaiters%d -> %s", classOf(spec), len(q.m.Running[p]), len(q.m.Waiting[p]), q.canceledUnstarted(p), predicted)
